@@ -1261,5 +1261,149 @@ theorem input_equiv {env : Env} {f : FileCfg} {c : CliOpts} {cfg cfg' : Cfg}
     simp [getInputType, getGitSelector, CliOpts.residual, hf, hs, hd, hx, hr, hg, hk, hdir, getInputSettings,
       storageTypeOf, inputOfStorage, hgit]
 
+/-- **override_equiv.**  For an option set clap accepts and a file `Config::from` accepts, running with the
+    options equals running with every option's value written into its configuration key (and only the
+    options that have no key – `--input.file`, `--input.git.commit`, `--price.before` – left on the command
+    line).  `hcwd`/`hdb` are facts about the environment: the working directory is an absolute path, and
+    reading the price file `""` fails.  (For a file that `Config::from` rejects see `contradictions`: it is
+    rejected whatever the options; for a rejected option set there is no run to compare.) -/
+theorem override_equiv {env : Env} {f : FileCfg} {c : CliOpts}
+    (hcwd : isAbs env.cwd = true) (hdb : ∀ s, env.dbOk "" s = false)
+    (hdom : namesSimple f c = true) (hclap : clapAccepts c = true)
+    (hload : ∃ cfg, configFrom env f = .ok cfg) :
+    effective env f c = effective env (f.withCli env c) c.residual := by
+  obtain ⟨cfg, hcfg⟩ := hload
+  have hcv : clapValues c = true := by
+    unfold clapAccepts at hclap
+    simp only [Bool.and_eq_true] at hclap
+    exact hclap.1.1
+  obtain ⟨st, g, db, lt, rts, gb, ets, c1, c2, c3, c4, c5, c6, hcfgeq⟩ := configFrom_ok hcfg
+  obtain ⟨ltE, hltE, hprice⟩ := price_with hcwd hcv c3
+  obtain ⟨st', hst'⟩ := storageWith_parse hcv c1
+  obtain ⟨g', hg'⟩ := gitWith_ok (env := env) (c := c) c2
+  obtain ⟨rts', hrts'⟩ : ∃ r, toReportTargets (c.reports.getD f.targets) = .ok r := by
+    cases hr : c.reports with
+    | none => exact ⟨rts, by simpa using c4⟩
+    | some l => obtain ⟨r, hr'⟩ := clap_reports hcv l hr; exact ⟨r, by simpa using hr'⟩
+  obtain ⟨ets', hets'⟩ : ∃ r, toExportTargets (c.exports.getD f.exportTargets) = .ok r := by
+    cases hr : c.exports with
+    | none => exact ⟨ets, by simpa using c6⟩
+    | some l => obtain ⟨r, hr'⟩ := clap_exports hcv l hr; exact ⟨r, by simpa using hr'⟩
+  obtain ⟨gb', hgb'⟩ : ∃ r, GroupBy.parse (c.groupBy.getD f.groupBy) = some r := by
+    cases hr : c.groupBy with
+    | none => exact ⟨gb, by simpa using c5⟩
+    | some l => obtain ⟨r, hr'⟩ := clap_groupBy hcv l hr; exact ⟨r, by simpa using hr'⟩
+  -- the overlaid values, as the run with the options computes them
+  have hR : reportsOf cfg c.reports = .ok rts' := by
+    unfold reportsOf; rw [hcfgeq]
+    cases hr : c.reports with
+    | none => simp only [hr, Option.getD_none] at hrts'; rw [c4] at hrts'; exact hrts'
+    | some l => simpa [hr] using hrts'
+  have hX : exportsOf cfg c.exports = .ok ets' := by
+    unfold exportsOf; rw [hcfgeq]
+    cases hr : c.exports with
+    | none => simp only [hr, Option.getD_none] at hets'; rw [c6] at hets'; exact hets'
+    | some l => simpa [hr] using hets'
+  have hG : groupByOf cfg c.groupBy = .ok gb' := by
+    unfold groupByOf; rw [hcfgeq]
+    cases hr : c.groupBy with
+    | none => simp only [hr, Option.getD_none] at hgb'; rw [c5] at hgb'; cases hgb'; rfl
+    | some l => simp only [hr, Option.getD_some] at hgb'; simp [hgb']
+  have hL : lookupOf cfg c.lookupType = .ok ltE := by
+    unfold lookupOf; rw [hcfgeq]
+    cases hr : c.lookupType with
+    | none => simp only [hr] at hltE; cases hltE; rfl
+    | some l => simp only [hr] at hltE; simp [hltE]
+  have hD : dbPathOf env cfg c.pricedb = (match c.pricedb with | some p => atCwd env p | none => db) := by
+    unfold dbPathOf; rw [hcfgeq]; cases c.pricedb <;> rfl
+  have hLHS : settingsFrom env cfg (getOverlaps c) =
+      settingsCore env (c.strict.getD cfg.strict) (c.audit.getD cfg.audit) (.ok rts') (.ok ets')
+        (.ok ltE) (reportCommodityOf cfg (c.strict.getD cfg.strict) c.reportCommodity) (.ok gb')
+        cfg.accounts cfg.equityAccount c.priceBefore
+        (match c.pricedb with | some p => atCwd env p | none => db) (accountOverlapOf c.accounts) := by
+    rw [settingsFrom_core]
+    simp only [getOverlaps]
+    rw [hR, hX, hL, hG, hD]
+  unfold effective
+  rw [residual_namesSimple hdom, residual_clapAccepts hclap, hdom, hclap, hcfg]
+  simp only [Bool.not_true, Bool.false_eq_true, ↓reduceIte]
+  rw [hLHS]
+  rcases hprice with hpok | ⟨hperr, hne, hdbE⟩
+  · -- the written file loads
+    have hcfg'e : ∃ cfg', configFrom env (f.withCli env c) = .ok cfg' := by
+      cases hc' : configFrom env (f.withCli env c) with
+      | ok cfg' => exact ⟨cfg', rfl⟩
+      | undef => exact absurd hc' (configFrom_ne_undef _ _)
+      | err => simp [configFrom, FileCfg.withCli, hst', hg', hpok, hrts', hgb', hets'] at hc'
+    obtain ⟨cfg', hcfg'⟩ := hcfg'e
+    have hin := input_equiv hcwd hclap hcfg hcfg'
+    obtain ⟨st2, g2, db2, lt2, rts2, gb2, ets2, d1, d2, d3, d4, d5, d6, hcfg'eq⟩ := configFrom_ok hcfg'
+    simp only [FileCfg.withCli] at d3 d4 d5 d6 hcfg'eq
+    rw [hpok] at d3; cases d3
+    rw [hrts'] at d4; cases d4
+    rw [hgb'] at d5; cases d5
+    rw [hets'] at d6; cases d6
+    -- the settings of the written file: the same overlaid values
+    have hRHS : settingsFrom env cfg' (getOverlaps c.residual) =
+        settingsCore env (c.strict.getD cfg.strict) (c.audit.getD cfg.audit) (.ok rts') (.ok ets')
+          (.ok ltE) (reportCommodityOf cfg (c.strict.getD cfg.strict) c.reportCommodity) (.ok gb')
+          cfg.accounts cfg.equityAccount c.priceBefore
+          (match c.pricedb with | some p => atCwd env p | none => db) none := by
+      have e1 : (getOverlaps c.residual).strictMode.getD cfg'.strict = c.strict.getD cfg.strict := by
+        rw [hcfg'eq, hcfgeq]; rfl
+      have e2 : (getOverlaps c.residual).auditMode.getD cfg'.audit = c.audit.getD cfg.audit := by
+        rw [hcfg'eq, hcfgeq]; rfl
+      have e3 : reportsOf cfg' (getOverlaps c.residual).reports = .ok rts' := by rw [hcfg'eq]; rfl
+      have e4 : exportsOf cfg' (getOverlaps c.residual).exports = .ok ets' := by rw [hcfg'eq]; rfl
+      have e5 : lookupOf cfg' (getOverlaps c.residual).lookupType = .ok ltE := by rw [hcfg'eq]; rfl
+      have e6 : groupByOf cfg' (getOverlaps c.residual).groupBy = .ok gb' := by rw [hcfg'eq]; rfl
+      have e7 : reportCommodityOf cfg' (c.strict.getD cfg.strict) (getOverlaps c.residual).commodity =
+          reportCommodityOf cfg (c.strict.getD cfg.strict) c.reportCommodity := by
+        rw [hcfg'eq, hcfgeq]
+        unfold reportCommodityOf
+        simp only [getOverlaps, CliOpts.residual]
+        cases c.reportCommodity <;> rfl
+      have e8 : cfg'.accounts = cfg.accounts := by rw [hcfg'eq, hcfgeq]
+      have e9 : cfg'.equityAccount = cfg.equityAccount := by rw [hcfg'eq, hcfgeq]
+      have e10 : (getOverlaps c.residual).beforeTime = c.priceBefore := rfl
+      have e11 : dbPathOf env cfg' (getOverlaps c.residual).dbPath =
+          (match c.pricedb with | some p => atCwd env p | none => db) := by rw [hcfg'eq]; rfl
+      have e12 : (getOverlaps c.residual).accountOverlap = none := rfl
+      rw [settingsFrom_core, e1, e2, e3, e4, e5, e6, e7, e8, e9, e10, e11, e12]
+    rw [hcfg']
+    simp only []
+    rw [hRHS, hin]
+    rw [settingsCore_acc env _ _ _ _ _ _ _ _ _ _ _ (accountOverlapOf c.accounts)]
+    cases hcore : settingsCore env (c.strict.getD cfg.strict) (c.audit.getD cfg.audit) (.ok rts') (.ok ets')
+        (.ok ltE) (reportCommodityOf cfg (c.strict.getD cfg.strict) c.reportCommodity) (.ok gb')
+        cfg.accounts cfg.equityAccount c.priceBefore
+        (match c.pricedb with | some p => atCwd env p | none => db) none with
+    | err => rfl
+    | undef => rfl
+    | ok s0 =>
+      simp only [Outcome.map]
+      cases getInputType env cfg c with
+      | err => rfl
+      | undef => rfl
+      | ok i =>
+        simp only [Outcome.ok.injEq]
+        have hacc := settingsCore_none_acc hcore
+        have hsel : ∀ own : Option (List String),
+            getAccountSelector { s0 with globalAccSel := accountOverlapOf c.accounts } (selFrom own f.selGlobal) =
+            getAccountSelector s0
+              (selFrom (match c.accounts with | some _ => none | none => own)
+                (match accountOverlapOf c.accounts with | some l => some l | none => f.selGlobal)) := by
+          intro own
+          unfold getAccountSelector
+          rw [hacc]
+          cases c.accounts <;> rfl
+        rw [hcfg'eq, hcfgeq]
+        simp only [mkEffective, hsel]
+        rfl
+  · -- the written `[price]` section is rejected: the run with the options cannot read the price file `""`
+    have hcfg' : configFrom env (f.withCli env c) = .err := by
+      simp only [configFrom, FileCfg.withCli, hst', hg', hperr, hrts', hgb', hets']
+    rw [hcfg', hdbE, settingsCore_db_empty hdb hne]
+
 end C19
 end Tackler
